@@ -1,0 +1,37 @@
+//go:build verif
+
+// Package verifhook exists only under the "verif" build tag. It re-exports
+// internal APIs so that an external deterministic-simulation harness can use
+// them as seams and in oracles. It adds no code to the existing packages.
+package verifhook
+
+import (
+	"github.com/emmansun/gmsm/internal/bigmod"
+	"github.com/emmansun/gmsm/internal/randutil"
+	"github.com/emmansun/gmsm/internal/sm2ec"
+	"github.com/emmansun/gmsm/internal/sm9/bn256"
+)
+
+// SetMaybeReadDecider installs (or, with nil, removes) the function that
+// decides whether randutil.MaybeReadByte consumes one byte.
+func SetMaybeReadDecider(f func() bool) { randutil.VerifDecide = f }
+
+type (
+	G1       = bn256.G1
+	G2       = bn256.G2
+	GT       = bn256.GT
+	Nat      = bigmod.Nat
+	Modulus  = bigmod.Modulus
+	SM2Point = sm2ec.SM2P256Point
+)
+
+var (
+	Gen1     = bn256.Gen1
+	Gen2     = bn256.Gen2
+	Pair     = bn256.Pair
+	Order    = bn256.Order
+
+	ScalarMultGT = bn256.ScalarMultGT
+)
+
+func NewSM2Point() *SM2Point { return sm2ec.NewSM2P256Point() }
